@@ -574,6 +574,11 @@ def monitor(codes):
         mon.use_tool_id(TOOL, "mc-sched")
         mon.register_callback(TOOL, mon.events.LINE, _on_line)
         _mon_on = True
+    codes = set(codes)
+    for c in list(_mon_codes - codes):
+        # exactly the requested set: a scenario must not inherit scheduling points from the one before
+        mon.set_local_events(TOOL, c, 0)
+        _mon_codes.discard(c)
     for c in codes:
         if c not in _mon_codes:
             mon.set_local_events(TOOL, c, mon.events.LINE)
